@@ -86,7 +86,8 @@ package nut11
 //@   assumes r0 == p2pk.verdict(proof, proofSecret, clk.now)
 //@   calls HasValidSignatures asserts @handed [C12] bytes(hash) == sha256(bytesOf(proof.Secret)) && signatures == p2pkWitness.Signatures && ((expired(p2pkTags) && Nsigs == 1 && pubkeys == p2pkTags.Refund && len(p2pkTags.Refund) > 0) || (!expired(p2pkTags) && Nsigs >= 1 && Nsigs == (p2pkTags.NSigs > 0 ? p2pkTags.NSigs : 1) && len(pubkeys) == 1 + (p2pkTags.NSigs > 0 ? len(p2pkTags.Pubkeys) : 0) && pk.pt(*pubkeys[0]) == pt.parse(hexdec(proofSecret.Data.Data)) && (forall j :: 0 <= j && j < len(pubkeys) - 1 ==> pubkeys[1 + j] == p2pkTags.Pubkeys[j])))
 //@   ensures @accepts [C12] r0 == nil ==> (hvs.calls == old(hvs.calls) + 1 && hvs.last) || (hvs.calls == old(hvs.calls))
-//@   ensures @onecall [C12] hvs.calls <= old(hvs.calls) + 1
+//@   ensures @onecall [C12] hvs.calls <= old(hvs.calls) + 1 && hvs.calls >= old(hvs.calls)
+//@   ensures @nofails [C12] r0 == nil ==> hvs.fails == old(hvs.fails)
 //@   ensures @anyonecanspend [C12] r0 == nil && hvs.calls == old(hvs.calls) ==> expired(p2pkTags) && len(p2pkTags.Refund) == 0
 //@   ensures @witness [C12] r0 == nil && hvs.calls == old(hvs.calls) + 1 ==> len(p2pkWitness.Signatures) >= 1
 //@   ensures @nodup [C12] r0 == nil && !expired(p2pkTags) ==> (forall i, j :: 0 <= i && i < j && j < len(p2pkWitness.Signatures) ==> p2pkWitness.Signatures[i] != p2pkWitness.Signatures[j])
